@@ -79,8 +79,49 @@ def run(ctx, rep) -> None:
         ok = len(sc) == 1 and norm(sc[0].value) == "current_scope() if connection is None else None"
         rep.check(ok, "C13.R1", f"{name}: scope looked up once", norm(sc[0].value) if sc else "", f.file, sc[0].lineno if sc else fn.lineno, disc=f"{name}:scope")
     ms = rb.methods.get("_store_matches_scope")
-    t = norm(ms.node) if ms else ""
-    rep.check("store_url == scope.url" in t and "scope.url is None" in t, "C13.R1", "_store_matches_scope compares database urls", "same database <=> same connection string", ms.file if ms else "", ms.node.lineno if ms else 0, disc="matches")
+    if ms is None:
+        raise AnalysisError("EventRecorderBase._store_matches_scope not found")
+    # "same database" must mean what it means to the connection manager: get_sqlite_connection keys the shared thread-local
+    # connections by KEY(connection_string). If the join decision compared anything finer (the raw strings), an event store
+    # opened with another spelling of the same file would not join, append on "its own" connection - the SAME connection - and
+    # append_batch would commit the caller's open transaction half-way.
+    cm_cls = prog.cls("stabilize.persistence.connection", "ConnectionManager")
+    gsc = cm_cls.methods.get("get_sqlite_connection")
+    keyfn = None
+    if gsc is not None:
+        subs = [n for n in ast.walk(gsc.node) if isinstance(n, ast.Subscript) and norm(n.value) == "connections" and isinstance(n.slice, ast.Name)]
+        for sub in subs:
+            for a in ast.walk(gsc.node):
+                if isinstance(a, ast.Assign) and norm(a.targets[0]) == sub.slice.id and isinstance(a.value, ast.Call) and isinstance(a.value.func, ast.Attribute):
+                    keyfn = a.value.func.attr
+    if keyfn is None:
+        raise AnalysisError("ConnectionManager.get_sqlite_connection: the key under which thread-local connections are shared was not found")
+    aliases = {keyfn}
+    for a in ast.walk(ms.node):
+        if isinstance(a, ast.Assign) and isinstance(a.targets[0], ast.Name) and isinstance(a.value, ast.Attribute) and a.value.attr == keyfn:
+            aliases.add(a.targets[0].id)
+
+    def _keyed(e, what: str) -> bool:
+        return isinstance(e, ast.Call) and ((isinstance(e.func, ast.Name) and e.func.id in aliases) or (isinstance(e.func, ast.Attribute) and e.func.attr == keyfn)) and len(e.args) == 1 and norm(e.args[0]) == what
+
+    def _ident(e) -> bool:
+        if isinstance(e, ast.Call) and norm(e.func) == "bool" and len(e.args) == 1:
+            return _ident(e.args[0])
+        if isinstance(e, ast.BoolOp) and isinstance(e.op, ast.And):
+            return any(_ident(v) for v in e.values) and all(_ident(v) or "is not None" in norm(v) for v in e.values)
+        if isinstance(e, ast.Compare) and len(e.ops) == 1 and isinstance(e.ops[0], ast.Eq):
+            l, r = e.left, e.comparators[0]
+            return (_keyed(l, "store_url") and _keyed(r, "scope.url")) or (_keyed(r, "store_url") and _keyed(l, "scope.url"))
+        if isinstance(e, ast.Compare) and len(e.ops) == 1 and isinstance(e.ops[0], ast.Is):
+            return "connection" in norm(e.left) and "connection" in norm(e.comparators[0])
+        return False
+
+    rets = [r for r in ast.walk(ms.node) if isinstance(r, ast.Return) and r.value is not None]
+    positive = [r for r in rets if not (isinstance(r.value, ast.Constant) and r.value.value is False)]
+    ok = bool(positive) and all(_ident(r.value) for r in positive)
+    rep.check(ok, "C13.R1", "_store_matches_scope decides 'same database' with the connection manager's own key", f"every non-False return compares {keyfn}(store_url) == {keyfn}(scope.url) (or the connection objects)" if ok else
+              f"returns `{norm(positive[0].value) if positive else '?'}`: connections are shared per {keyfn}(connection_string), so two spellings of one SQLite file share a connection but do not 'match' - the event is appended outside the scope on that same connection "
+              "and append_batch commits the handler's open transaction half-way (state and event durable although the transaction fails)", ms.file, positive[0].lineno if positive else ms.node.lineno, disc="matches")
 
     # ---- R2 -------------------------------------------------------------------------------------
     cms = [("stabilize.persistence.sqlite.store.store", "SqliteWorkflowStore.transaction")]
